@@ -314,6 +314,25 @@ def add_twins(rng, tb, k, p=0.25):
     return tb
 
 
+def deep_sentence(rng, depth, sid=1):
+    """A right-branching tree with a constituent `depth` levels below the root."""
+    n = depth + 1
+    tokens = [["w%d" % (i % 5), "NN", "--", "--", "--"] for i in range(n)]
+    node = ["NP", "--", [n - 1, n]]
+    for i in range(n - 2, 0, -1):
+        node = [rng.choice(["S", "VP", "NP"]), "--", [i, node]]
+    return {"sid": sid, "tokens": tokens, "root": [ROOT, "--", [node]]}
+
+
+def comb_sentence(rng, fanout, sid=1):
+    """Two constituents whose tokens alternate: each has `fanout` blocks."""
+    n = 2 * fanout
+    tokens = [["w%d" % (i % 3), "NN", "--", "--", "--"] for i in range(n)]
+    a = ["NP", "--", list(range(1, n + 1, 2))]
+    b = ["VP", "--", list(range(2, n + 1, 2))]
+    return {"sid": sid, "tokens": tokens, "root": [ROOT, "--", [["S", "--", [a, b]]]]}
+
+
 def token_tree(rng, k, sid=1):
     """A tree that consists of a single token (its root is the token)."""
     w, p = gen_word(rng, k)
